@@ -30,3 +30,22 @@ package resolver
 //@   assume   [history-length] r.idx < MaxUint64
 //@   modifies r.idx
 //@   ensures [rotation] r.idx == old(r.idx) + 1 && result == r.addrs[emod(r.idx, len(r.addrs))]
+
+// dial: every DNS lookup goes to the next configured resolver address (rotation), with the caller's
+// context and network, whatever server address the Go resolver proposes.
+//@ func (*resolver).dial
+//@   property C18 C19
+//@   returns (c, err)
+//@   requires [non-nil] r != nil && r.dialer != nil
+//@   requires [at-least-one-address] len(r.addrs) >= 1
+//@   assume   [history-length] r.idx < MaxUint64
+//@   modifies r.idx
+//@   at call DialContext: assert [dials-the-next-configured-resolver] arg1 == ctx && arg2 == network && arg3 == r.addrs[emod(r.idx, len(r.addrs))]
+//@   ensures [rotation-advances] r.idx == old(r.idx) + 1
+
+// NewResolver: an empty list is refused; otherwise the resolver dials the normalised addresses.
+//@ func NewResolver
+//@   property C19
+//@   returns (res, err)
+//@   ensures [empty-list-refused] len(addrs) == 0 ==> err != nil && res == nil
+//@   ensures [resolver-or-error] err == nil ==> res != nil
